@@ -37,7 +37,7 @@ from mici.transitions import (
 )
 
 if TYPE_CHECKING:
-    from collections.abc import Container, Generator, Iterable, Sequence
+    from collections.abc import Container, Generator, Hashable, Iterable, Sequence
 
     from numpy.typing import ArrayLike, DTypeLike, NDArray
 
@@ -136,9 +136,23 @@ def _generate_memmap_filenames(
     prefix: str,
     key: str,
     indices: list[int],
+    used_key_strs: dict[str, Hashable] | None = None,
+    key_id: Hashable | None = None,
 ) -> list[str]:
-    """Generate new memory-map filenames."""
+    """Generate new memory-map filenames.
+
+    Distinct keys can give the same string once characters which are not valid in
+    filenames are stripped. If a dictionary `used_key_strs` recording the key each string
+    has been used for is passed, a counter is appended to a string already used for a
+    different key (identified by `key_id` if passed, otherwise by `key` itself).
+    """
     key_str = _get_valid_filename(str(key))
+    if used_key_strs is not None:
+        key_id = key if key_id is None else key_id
+        base_key_str, count = key_str, 1
+        while used_key_strs.setdefault(key_str, key_id) != key_id:
+            count += 1
+            key_str = f"{base_key_str}-{count}"
     dir_path = Path(dir_path)
     return [dir_path / f"{prefix}_{index}_{key_str}.npy" for index in indices]
 
@@ -272,6 +286,7 @@ def _init_stats(
 ) -> dict[str, dict[str, list[ArrayLike]]]:
     """Initialize dictionary of per-transition chain statistics array dicts."""
     stats = {}
+    used_key_strs = {}
     for trans_key, transition in transitions.items():
         if transition.statistic_types is not None:
             stats[trans_key] = {}
@@ -284,6 +299,8 @@ def _init_stats(
                             "stats",
                             f"{trans_key}_{key}",
                             range(n_chain),
+                            used_key_strs,
+                            (trans_key, key),
                         )
                     ]
                 else:
@@ -301,6 +318,7 @@ def _init_traces(
 ) -> dict[str, list[ArrayLike]]:
     """Initialize dictionary of chain trace arrays."""
     traces = {}
+    used_key_strs = {}
     n_chain = len(init_states)
     for trace_func in trace_funcs:
         for key, val in trace_func(init_states[0]).items():
@@ -319,6 +337,7 @@ def _init_traces(
                         "trace",
                         key,
                         range(n_chain),
+                        used_key_strs,
                     )
                 ]
             else:
